@@ -317,12 +317,18 @@ def run(ctx):
     shards = 16
     import concurrent.futures as cf
     with cf.ThreadPoolExecutor(shards) as ex:
-        futs = [ex.submit(tlc.run, 'MC_AtomsStore', 'Atoms_sim.cfg', 1, None, 6000, max(1, nsim // shards), 10, ctx.seed % 100000 + i)
-                for i in range(shards)]
+        futs = [ex.submit(tlc.run, 'MC_AtomsStore', 'Atoms_sim.cfg', workers=1, timeout=6000, simulate=max(1, nsim // shards), depth=10,
+                          seed=ctx.seed % 100000 + i, raw_cases=True, keep_stdout=False) for i in range(shards)]
+        cap = 4000 if quick else 6000          # per shard: in simulation mode TLC prints a case for EVERY candidate successor at the last depth
         for f in futs:
             rs = tlc.must_pass(f.result(), 'Atoms_sim')
             ctx.add_tlc(rs)
-            hists += [json.dumps(h) for h in rs.cases if len(h) == 9]
+            kept = 0
+            for t_ in rs.cases:                  # text; parsed one at a time only to read its length
+                if kept < cap and len(json.loads(t_)) == 9:
+                    hists.append(t_)
+                    kept += 1
+            rs.cases = []
     ctx.extra['histories'] = len(hists)
     import multiprocessing as mp
     chunks = [hists[i::16] for i in range(16)]
